@@ -69,4 +69,51 @@ SEGMENTS = {
         await_calls=["get_reftable_entry", "get_refblock"],
         rewrites=[(r"\.write\(\)\.await", ".kwrite()")],
     ),
+    # ---- release of a replaced compressed cluster (do_write_cow, Ok arm, `if compressed {..}`)
+    "X0": dict(
+        file="src/dev/write.rs", fn="do_write_cow", scope=[r"Ok\(_\) => \{", r"if compressed \{"], start="FULL",
+        sig="pub(crate) fn seg_x0(&self, mapping: &Mapping) -> Qcow2Result<()>",
+        pre="        let info = &self.info;",
+        await_calls=["free_clusters"],
+        post="        Ok(())",
+    ),
+    # ---- geometry of the compressed-cluster read request (before the bounce buffer is allocated)
+    "C0": dict(
+        file="src/dev/read.rs", fn="do_read_compressed", start="PROLOGUE", end=r"let mut _compressed_data",
+        sig="pub(crate) fn seg_c0(&self, mapping: Mapping, off_in_cls: usize, buf: KBuf) -> Qcow2Result<usize>",
+        post=EPI + "        self.out.set([aligned_off, pad as u64, aligned_len as u64, compressed_offset, compressed_length as u64, bs as u64]);\n        Ok(0)",
+    ),
+    # ---- top-table flush: dirty block -> (offset, length) request; key window of the child slices
+    "K1": dict(
+        file="src/dev/cache.rs", fn="flush_top_table", start="FULL",
+        sig="pub(crate) fn seg_k1<B: Table>(&self, rt: &B) -> Qcow2Result<()>",
+        await_calls=["flush_table"],
+    ),
+    "K0": dict(
+        parts=[
+            dict(fn="rb_slice_key_of_rt_off", sig="pub(crate) fn seg_k0_rb(&self, off: u64) -> usize"),
+            dict(fn="l2_slice_key_of_l1_off", sig="pub(crate) fn seg_k0_l2(&self, off: u64) -> usize"),
+        ],
+        file="src/dev/cache.rs", start="FULL",
+    ),
+    "K2": dict(
+        file="src/dev/cache.rs", fn="flush_meta_generic", start="FULL",
+        sig="pub(crate) fn seg_k2<A: Table + std::fmt::Debug, F>(&self, rt: &A, key_fn: F) -> Qcow2Result<bool> where F: Fn(u64) -> usize",
+        await_calls=["flush_cache", "call_fsync", "flush_table"],
+        rewrites=[(r"self\.k_flush_cache\(cache, ", "self.k_flush_cache(")],
+    ),
+    # ---- header write
+    "H0": dict(
+        file="src/dev/cache.rs", fn="commit_header", start="FULL",
+        sig="pub(crate) fn seg_h0<F>(&self, h: &mut Qcow2Header, rollback: F) -> Qcow2Result<()> where F: FnOnce(&mut Qcow2Header)",
+        await_calls=["call_write"], await_calls_opt=["call_read"],
+    ),
+    # ---- refcount-table growth: the argument list handed to RefTable::clone_and_grow
+    "G0": dict(
+        file="src/dev/alloc.rs", fn="ensure_refblock_offset", start=r"if !reftable\.in_bounds\(rt_index\)",
+        sig="pub(crate) fn seg_g0(&self, reftable: &mut RefTable, rt_index: usize, rt_clusters: usize) -> Qcow2Result<()>",
+        pre="        let info = &self.info;",
+        await_calls=["grow_reftable"],
+        post="        Ok(())",
+    ),
 }
